@@ -92,7 +92,11 @@ pub fn reentrant_faults(g: &mut Grid) {
                 for add in [false, true] {
                     for clone_panics in [false, true] {
                         for drop_panics in [false, true] {
-                            one(g, api, co, mask, add, clone_panics, drop_panics);
+                            one(g, api, co, mask, add, clone_panics, drop_panics, false);
+                        }
+                        if !clone_panics {
+                            // the same call made while the thread is unwinding from an unrelated panic
+                            one(g, api, co, mask, add, false, false, true);
                         }
                     }
                 }
@@ -101,10 +105,11 @@ pub fn reentrant_faults(g: &mut Grid) {
     }
 }
 
-fn one(g: &mut Grid, api: &str, co: &[&str], mask: u8, add: bool, clone_panics: bool, drop_panics: bool) {
-    let case = format!("{} on a value shared with [{}]; its Clone releases co-owners {:#b}{}{}; first destructor to run {}", api, co.join(","), mask, if add { " and adds an owner" } else { "" }, if clone_panics { " and then panics" } else { "" }, if drop_panics { "panics" } else { "returns" });
+fn one(g: &mut Grid, api: &str, co: &[&str], mask: u8, add: bool, clone_panics: bool, drop_panics: bool, unwinding: bool) {
+    let case = format!("{}{} on", if unwinding { "[during an unwind] " } else { "" }, api);
+    let case = case + &format!(" a value shared with [{}]; its Clone releases co-owners {:#b}{}{}; first destructor to run {}", co.join(","), mask, if add { " and adds an owner" } else { "" }, if clone_panics { " and then panics" } else { "" }, if drop_panics { "panics" } else { "returns" });
     vrt::begin_execution();
-    g.case(format!("reentrant|{}|{}|{}|{}|{}|{}", api, co.join("+"), mask, add, clone_panics, drop_panics), || case.clone());
+    g.case(format!("reentrant|{}|{}|{}|{}|{}|{}|{}", api, co.join("+"), mask, add, clone_panics, drop_panics, unwinding), || case.clone());
     let a = cap(|| Arc::new(Re(Tracked::new(5))));
     let id = a.0.id();
     let old_block = a.heap_ptr() as usize;
@@ -122,8 +127,9 @@ fn one(g: &mut Grid, api: &str, co: &[&str], mask: u8, add: bool, clone_panics: 
     track::arm_clone_panic(if clone_panics { 1 } else { 0 });
     track::arm_drop_panic(if drop_panics { 1 } else { 0 });
     let d0 = track::n_drops();
+    let maybe_unwinding = |f: &mut dyn FnMut()| if unwinding { vrt::during_unwind(|| f()) } else { f() };
     let r = catch(|| {
-        cap(|| match (api, &mut keep) {
+        cap(|| maybe_unwinding(&mut || match (api, &mut keep) {
             ("make_mut", Keep::A(x)) => Arc::make_mut(x).0.set_val(9),
             ("make_unique", Keep::A(x)) => Arc::make_unique(x).0.set_val(9),
             ("OffsetArc::make_mut", Keep::O(x)) => x.make_mut().0.set_val(9),
@@ -133,7 +139,7 @@ fn one(g: &mut Grid, api: &str, co: &[&str], mask: u8, add: bool, clone_panics: 
                 drop(v);
             }
             _ => unreachable!(),
-        })
+        }))
     });
     let dropped_inside = track::drops_since(d0);
     track::arm_clone_panic(0);
